@@ -150,6 +150,9 @@ type Compiler struct {
 	// evaluation for configd:must statements when using tools that are run
 	// without custom function plugins present (eg yangc / DRAM).
 	userFnChecker xpath.UserCustomFunctionCheckerFn
+	// Typedefs whose base type is currently being resolved, to detect
+	// typedefs that (directly or indirectly) refer to themselves.
+	typedefsInProgress map[parse.Node]bool
 }
 
 const (
@@ -2399,6 +2402,16 @@ func (c *Compiler) BuildBaseType(
 		return c.makeBuiltinType(cfgNode, typ, tname.Local, def, hasDef, parentStatus), tname, true
 	}
 	c.assertReferenceStatus(typ, refType, parentStatus)
+
+	if c.typedefsInProgress == nil {
+		c.typedefsInProgress = make(map[parse.Node]bool)
+	}
+	if c.typedefsInProgress[refType] {
+		c.error(typ, fmt.Errorf("typedef %s is defined in terms of itself",
+			typeName))
+	}
+	c.typedefsInProgress[refType] = true
+	defer delete(c.typedefsInProgress, refType)
 
 	typ2 := refType.ChildByType(parse.NodeTyp)
 	tdef := refType.Def()
